@@ -6,7 +6,7 @@ import props
 def setup():
     t0 = time.time()
     import translate
-    translate.run()
+    translate.run_all()
     ok, out = lake_build()
     if not ok:
         print(out[-4000:])
@@ -27,7 +27,7 @@ def lean_obligations(prop, tier):
     """returns dict(ok, theorems={name: axioms}, failures=[...], checker_cmd)"""
     import translate
     res = dict(ok=True, theorems={}, failures=[], partial=[], counterexamples=[])
-    tfail = translate.run()
+    tfail = translate.run_all()
     for f in tfail:
         res['ok'] = False
         res['failures'].append('translator: ' + f)
@@ -155,6 +155,7 @@ def check(prop, tier):
         leanchecker=lean.get('leanchecker'),
         verdict=verdict_lines,
     )
+    if layers_out and all(r.get('exhaustive') for r in layers_out): cov['exhaustive'] = True
     ev['coverage'] = cov
     ev['wall_s'] = round(time.time() - t0, 2)
     write_evidence(prop, ev)
